@@ -9,5 +9,6 @@ CONSTANTS
  CCoins = {}
  SCoins = {}
  Tamper = FALSE
+ PowM <- TabPowM
 INVARIANTS SlotTheorem
 CHECK_DEADLOCK FALSE
